@@ -511,7 +511,9 @@ def h_lh_helper(sym):
     what = sym.B['what']
     cand = [0, 1, 3, 15]
     chosen = [i for i in cand if sbool(sym, f'bs{i}_in_subset')]
-    n_sup = [2, 4, 16][sym.choice('supported_sel', 3)]
+    # base stations whose pages the device serves: a prefix (what firmware builds differ in), or everything but 1 and 2 (a read
+    # that fails for another reason in the middle of the sweep)
+    sup = [set(range(2)), set(range(4)), set(range(16)), set(range(16)) - {1, 2}][sym.choice('supported_sel', 4)]
     h = Mem()
     m = LighthouseMemory(id=4, type=MemoryElement.TYPE_LH, size=0x2000, mem_handler=h)
     helper = LighthouseMemHelper(_CfWithLh(m))
@@ -537,12 +539,12 @@ def h_lh_helper(sym):
             n += 1
             assert n <= 40, 'helper keeps issuing requests'
             addr = h.pending[0][2]
-            h.serve(fail=((addr - base) // 0x100 >= n_sup))
+            h.serve(fail=((addr - base) // 0x100 not in sup))
     done = Calls()
     (helper.write_geos if what == 'geo' else helper.write_calibs)(dict(objs), done)
     serve_all()
     assert len(done.calls) == 1, 'write done callback not called exactly once'
-    assert (True if done.calls[0][0] else False) == all(i < n_sup for i in chosen), 'verdict of the write'
+    assert (True if done.calls[0][0] else False) == all(i in sup for i in chosen), 'verdict of the write'
     assert sorted(a for (a, d, f) in h.writes) == [base + i * 0x100 for i in chosen], 'pages written: one per object of the subset'
     for (a, d, f) in h.writes:
         i = (a - base) // 0x100
@@ -554,9 +556,9 @@ def h_lh_helper(sym):
     serve_all()
     assert len(rd.calls) == 1, 'read done callback not called exactly once'
     res = rd.calls[0][0]
-    assert sorted(res.keys()) == list(range(n_sup)), 'read_all returns exactly the base stations the device supports'
+    assert sorted(res.keys()) == sorted(sup), 'read_all returns exactly the base stations the device serves'
     for i in chosen:
-        if i < n_sup:
+        if i in sup:
             got, exp = (geo_floats(res[i]), geo_floats(objs[i])) if what == 'geo' else (calib_floats(res[i]), calib_floats(objs[i]))
             ref = struct.unpack('<%df' % len(exp), struct.pack('<%df' % len(exp), *exp))
             assert all_equal(got, ref), ('object read back differs from the one written', i)
@@ -568,7 +570,7 @@ def h_lh_helper(sym):
     (helper.write_geos if what == 'geo' else helper.write_calibs)({}, done2)
     assert len(done2.calls) == 1 and done2.calls[0][0]
     sym.goal('subset-written' if chosen else 'empty-subset')
-    if any(i >= n_sup for i in chosen):
+    if any(i not in sup for i in chosen):
         sym.goal('unsupported-in-subset')
 
 
@@ -1000,7 +1002,7 @@ HARNESSES = [
     Harness('lh_flags', h_lh_flags, timeout=(250, 900)),
     Harness('lh_helper[geo]', h_lh_helper, quick=dict(what='geo'), timeout=(400, 1200), smt_timeout=1.5,
             goals=('subset-written', 'empty-subset', 'unsupported-in-subset'),
-            note='LighthouseMemHelper: any subset of base stations 0, 1, 3, 15 on a device supporting 2, 4 or 16 of them'),
+            note='LighthouseMemHelper: any subset of base stations 0, 1, 3, 15 on a device serving the first 2, the first 4, all 16, or all but 1 and 2'),
     Harness('lh_helper[calib]', h_lh_helper, quick=dict(what='calib'), timeout=(400, 1200), smt_timeout=1.5,
             goals=('subset-written', 'empty-subset', 'unsupported-in-subset')),
     Harness('lh_file', h_lh_file, quick=dict(geo_ids=(0, 1, 15), calib_ids=(0, 15)),
